@@ -274,7 +274,8 @@ int yr_parser_emit_pushes_for_rules(
     // Is rule->identifier prefixed by prefix? Rules from other namespaces are
     // skipped, a rule with the same identifier in another namespace would
     // make the rule from the current namespace to be pushed twice.
-    if (rule->ns->idx == ns->idx &&
+    if (rule->ns != NULL && rule->identifier != NULL &&
+        rule->ns->idx == ns->idx &&
         strncmp(prefix, rule->identifier, strlen(prefix)) == 0)
     {
       uint32_t rule_idx = yr_hash_table_lookup_uint32(
